@@ -297,6 +297,7 @@ struct HoldFut {
     rid: usize,
     cid: usize,
     pooled: Option<Pooled<HC, B>>,
+    released: bool,
 }
 impl Future for HoldFut {
     type Output = Result<http::Response<B>, hyperdriver::client::Error>;
@@ -305,7 +306,9 @@ impl Future for HoldFut {
         let boom = this.w.lock().unwrap().reqs[this.rid].panic;
         if boom {
             // the task holding the connection panics: the handle is a local of the panicking frame, so it is dropped
-            // DURING unwinding (std::thread::panicking() is true inside Pooled::drop)
+            // DURING unwinding (std::thread::panicking() is true inside Pooled::drop).  The release is logged first, as
+            // in the plain drop (HoldFut::drop logs before its fields are dropped), so that the event order is the same.
+            this.release();
             let _held = this.pooled.take();
             panic!("scripted panic of the request holding the connection");
         }
@@ -319,13 +322,22 @@ impl Future for HoldFut {
         }
     }
 }
-impl Drop for HoldFut {
-    fn drop(&mut self) {
+impl HoldFut {
+    fn release(&mut self) {
+        if self.released {
+            return;
+        }
+        self.released = true;
         let mut w = self.w.lock().unwrap();
         let (rid, cid) = (self.rid, self.cid);
         w.conns[cid].holders -= 1;
         w.reqs[rid].holding = None;
         w.ev(format!("rel:{}:{}", rid, cid));
+    }
+}
+impl Drop for HoldFut {
+    fn drop(&mut self) {
+        self.release();
     }
 }
 impl tower::Service<ExecuteRequest<Pooled<HC, B>, B>> for Svc {
@@ -351,7 +363,7 @@ impl tower::Service<ExecuteRequest<Pooled<HC, B>, B>> for Svc {
         }
         w.conns[cid].holders += 1;
         w.reqs[rid].holding = Some(cid);
-        HoldFut { w: self.w.clone(), rid, cid, pooled: Some(pooled) }
+        HoldFut { w: self.w.clone(), rid, cid, pooled: Some(pooled), released: false }
     }
 }
 
